@@ -15,6 +15,10 @@ CHECKS = {
                 text="hugr/hugr/node_port.py is verified deductively for all output counts n >= 0, all integers and all slices with positive step: _normalize_index, _index (int and slice variants), __getitem__, outputs, __iter__, out_port, inp, out against contracts transcribed from the statement (Python index meaning, CPython slice adjustment, IndexError/ValueError conditions), plus a lemma that ==/hash of nodes and ports are by index and offset only (derived from the dataclass flags in the AST). The clause about handles returned by the graph and the builders is covered by a bounded stand-in (one program per entry point), hence category other rather than proof.",
                 note=TRUST + "; generators abstracted by the sequence they yield (element production proved not to raise); handle counts through base.py / build/*.py bounded only.",
                 technique="contract-based deductive verification (VCs from the AST, z3/cvc5) + labelled bounded stand-in for the builder handle counts"),
+    "C09": dict(cat="proof", design="5/C09",
+                text="Envelope header encoder/decoder, flag bits, _make_header (level 0 counts as compressed), the text-only-for-ASCII rule, rejection of short / foreign-magic / unknown-format input with ValueError, make_envelope / read_envelope and the Package entry points are verified over symbolic byte sequences (all 2^16 format/flag pairs and all truncations at once); lemmas header_round_trip, ascii_header and envelope_round_trip compose the contracts. Library inverses (utf-8, pyzstd, pydantic dump/validate) are assumed and exercised on the real stack by the bounded run; package/extension/HUGR codecs are referred to C02/C10.",
+                note=TRUST + "; Package._to_serial and serial Package.deserialize trusted (opaque); MODULE formats outside the claim (native module absent offline).",
+                technique="contract-based deductive verification: VCs from the AST of envelope.py/package.py over symbolic bytes, z3 with z3-4.8.12/cvc5 cross-check; lemmas over the contracts"),
 }
 
 NOT_APPLICABLE = {
